@@ -63,7 +63,10 @@ func genHost(t *rapid.T) string {
 // subset draws a subset of xs; mode chooses its shape.
 func genHealth(t *rapid.T, members []int) []int {
 	n := len(members)
-	mode := rapid.IntRange(0, 6).Draw(t, "healthMode")
+	mode := rapid.SampledFrom([]int{0, 1, 1, 2, 2, 3, 4, 5}).Draw(t, "healthMode")
+	if n == 1 && mode != 0 {
+		mode = 1 + mode%2*4 // single member: unhealthy or random
+	}
 	var out []int
 	switch mode {
 	case 0: // everybody healthy
@@ -480,6 +483,15 @@ func run(c Case) pbt.Verdict {
 		}
 		if len(members) == 1 {
 			classes["single-member"] = true
+		}
+		if len(members) >= 2 && len(healthyList) == 0 {
+			classes["none-healthy,members>=2"] = true
+		}
+		if si > 0 && len(c.States[si-1].Healthy) > 0 && len(healthyList) == 0 {
+			classes["refresh:some-healthy->none-healthy"] = true
+		}
+		if si > 0 && len(c.States[si-1].Healthy) == 0 && len(healthyList) > 0 {
+			classes["refresh:none-healthy->some-healthy"] = true
 		}
 		if c.MaxReplica >= len(members) {
 			classes["maxreplica>=members"] = true
